@@ -99,7 +99,7 @@ class QsModel:
 
     # violation classes that are pure observations at a quiescent point: the model's state
     # stays right when they are only recorded, so a check that does not own them can go on
-    OBSERVATIONS = ("I-lostwake", "I-loc", "I-zombie")
+    OBSERVATIONS = ("I-lostwake", "I-loc", "I-zombie", "R-snap")
 
     def _fail(self, cls, msg, **detail):
         if self.own is not None and cls in self.OBSERVATIONS and CLASS2PROP.get(cls) != self.own:
@@ -240,6 +240,7 @@ class QsModel:
     def _cmp_snapshot(self, j, got, cls, what):
         if not isinstance(got, dict):
             self._fail(cls, f"{what}: expected a job snapshot for {j.tag()}, got {got!r}")
+            return
         exp = self.snapshot(j)
         if j.state == "d":
             exp.pop("ttl", None)  # how long a finished job is kept is the server's business
